@@ -498,10 +498,16 @@ Proof.
   repeat match goal with |- context [match ?x with _ => _ end] => destruct x end;
     first [exists 0; reflexivity|exists 1; reflexivity|exists 2; reflexivity|exists 3; reflexivity|exists 4; reflexivity].
 Qed.
+Lemma aty_align_pow2 t : exists k, aty_align t = 2 ^ k.
+Proof.
+  unfold aty_align. destruct (t =? 17); [exists 3; reflexivity|].
+  destruct (t =? 18); [exists 4; reflexivity|]. apply ty_align_pow2.
+Qed.
 Lemma dop_of_wf o d : dop_of o = Some d -> op_wf d.
 Proof.
-  unfold dop_of. destruct (s_rq o); intros E; inversion E; subst; cbn [op_wf ety_of e_align];
-    try exact I; apply ty_align_pow2.
+  unfold dop_of. destruct (s_rq o); intros E; inversion E; subst;
+    cbn [op_wf ety_of atomic_ety aty_of at_align e_align];
+    try exact I; first [apply ty_align_pow2|apply aty_align_pow2].
 Qed.
 
 (* what the harness-side observation of a valid accessor is, in closed form *)
@@ -546,8 +552,8 @@ Proof.
   unfold dop_of. intros E Hf (Hv & Hk & Hr & Hoff & Hlen & Hn).
   unfold fitsb. rewrite Hr.
   destruct p as [s|r|x|t|t|h|r|gr]; destruct (s_rq o); inversion E; subst;
-    cbn [fits fits_vm ety_of e_size e_align] in Hf; try contradiction;
-    cbn [acc_base acc_len acc_nelem va_len] in Hoff, Hlen, Hn;
+    cbn [fits fits_vm ety_of atomic_ety aty_of at_size at_align e_size e_align] in Hf; try contradiction;
+    cbn [acc_base acc_len acc_nelem va_len ref_align] in Hoff, Hlen, Hn |- *;
     try reflexivity;
     rewrite ?andb_true_iff, ?N.leb_le, ?N.ltb_lt, ?N.eqb_eq;
     repeat match goal with H : _ /\ _ |- _ => destruct H end;
@@ -563,7 +569,7 @@ Proof.
   unfold dop_of, obs_extent, elem_size. intros E Hf Hl Hn.
   destruct p as [s|r|x|t|t|h|r|g]; destruct (s_rq o); inversion E; subst;
     cbn [fits fits_vm] in Hf; try contradiction;
-    cbn [child child_vm kind_of acc_len acc_nelem va_len va_nelem va_esz ety_of e_size] in *;
+    cbn [child child_vm kind_of acc_len acc_nelem va_len va_nelem va_esz ety_of atomic_ety aty_of at_size e_size] in *;
     try assumption; rewrite Hn; reflexivity.
 Qed.
 
@@ -574,7 +580,7 @@ Proof.
   unfold dop_of, alignedb. intros E Hf Hb.
   destruct p as [s|r|x|t|t|h|r|g]; destruct (s_rq o); inversion E; subst;
     cbn [fits fits_vm] in Hf; try contradiction;
-    cbn [child child_vm kind_of kind_eqb orb acc_base tr_addr ety_of e_size e_align] in *;
+    cbn [child child_vm kind_of kind_eqb orb acc_base tr_addr ety_of atomic_ety aty_of at_size at_align e_size e_align ref_align] in *;
     try reflexivity; apply aligned_at_true; rewrite Hb;
     repeat match goal with H : _ /\ _ |- _ => destruct H end; assumption.
 Qed.
